@@ -229,6 +229,17 @@ def check(ci: int, v0: int, v1: int) -> bool:
             exp_exc = xtuml.UnknownLinkException; ret = relate(s_inst, t_inst, rel, 'no such phrase')
         elif OP == 'unrelate_badphrase':
             exp_exc = xtuml.UnknownLinkException; ret = unrelate(t_inst, s_inst, rel, 'no such phrase')
+        elif OP == 'relate_nophrase':
+            # leaving the phrase out on an association whose ends are told apart by their phrases names no link
+            if not s_phrase and not t_phrase:
+                return None
+            exp_exc = xtuml.UnknownLinkException
+            ret = relate(s_inst, t_inst, rel) if i == 0 else relate(t_inst, s_inst, rel, '')
+        elif OP == 'unrelate_nophrase':
+            if not s_phrase and not t_phrase:
+                return None
+            exp_exc = xtuml.UnknownLinkException
+            ret = unrelate(s_inst, t_inst, rel) if i == 0 else unrelate(t_inst, s_inst, rel, '')
         elif OP == 'relate_none':
             exp_ret = False
             ret = relate(None, t_inst, rel, s_phrase) if i == 0 else relate(s_inst, None, rel, s_phrase)
